@@ -32,6 +32,17 @@ def ws_alpha(n, errors=True):
 
 RD_ALPHA = ['d4096:5', 'd1:9', 'd4095:2', 'i']          # complete, two short counts, EINTR
 SH_ALPHA = ['t4096', 't1', 't100', 'i']
+# descriptor NUMBERS as an input class: the lowest free number when the scenario starts.  0, 1, 2: a process whose
+# standard streams (from that number on) are closed, so the library is handed 0/1/2 by socket/accept/dup; 1023, 1024,
+# 1025: everything below is taken, so the numbers straddle FD_SETSIZE.  (3 = an ordinary process, the default.)
+LOW_BASES = [0, 1, 2]
+HIGH_BASES = [1023, 1024, 1025]
+BASES = LOW_BASES + HIGH_BASES
+# lifecycle alphabet aimed at descriptor reuse (a number released by close/done/del is handed out again by the next
+# open/accept/dup) and at failed opens at each stage
+REUSE_OPS = ['open 0 1111', 'open 1 1111', 'open 0 0111', 'open 0 1011', 'open 0 1110', 'open 1 1101',
+             'accept 0 0 1 1', 'accept 0 0 1 0', 'accept 0 1 0 1', 'close 0 0 1', 'close 1 0 1', 'dup 0 1', 'dup 1 1',
+             'dup 2 1', 'dup 0 0', 'done 0 0 1', 'done 1 1 0', 'del 0 0 1', 'del 2 0 1']
 SIZES = [1, 2, 62, 1023, 1024, 1025, 3000, 4095, 4096, 4097, 8192, 12289, 16384, 5 * 4096]
 
 
@@ -47,13 +58,17 @@ class C19(vlib.PropertyCheck):
                        '{complete, short, zero, EINTR, EAGAIN, EFBIG, EPIPE, EINVAL} for the first k calls for several payload sizes; '
                        '(3) every sequence of k lifecycle operations (with failing socket/bind/listen/connect/accept/dup/close '
                        'outcomes) after a listener/client prefix, plus random longer histories; (4) real AF_UNIX pairs opened through '
-                       'unix: URLs with shaped first-k read/write calls, payloads 1..5*4096, teardown in every order.  k = 3 quick, '
-                       '4 thorough.  non-trivial = at least one accept, send or receive returned an object/TRUE/a string; '
+                       'unix: URLs with shaped first-k read/write calls, payloads 1..5*4096, teardown in every order; (5) descriptor '
+                       'numbers: strata 1-4 again (k = 2; lifecycle sequences up to 3 over a reuse-directed alphabet) with the lowest '
+                       'free descriptor being 0, 1, 2 (standard streams closed around the scenario) and 1023, 1024, 1025 (everything '
+                       'below taken), object descriptor numbers compared with the model\'s lowest-free oracle, census compared as a set.  '
+                       'k = 3 quick, 4 thorough.  non-trivial = at least one accept, send or receive returned an object/TRUE/a string; '
                        'distinct = distinct case lines')
     assumptions = ['AF_UNIX stream sockets are FIFO byte channels: bytes accepted by write() are delivered to read() in order, none '
                    'lost or duplicated; EAGAIN / end of file are reported only when the queue is empty (stated, not proved)',
                    'descriptor table: socket/accept/dup return a descriptor that is not open; close releases the descriptor unless it '
-                   'reports EINTR; write on a descriptor that is not open fails with EBADF and only then',
+                   'reports EINTR; write on a descriptor that is not open fails with EBADF and only then; the correspondence runs use the '
+                   'kernel\'s own choice (lowest free number, proved fresh) from the bases 0, 1, 2, 3, 1023, 1024, 1025',
                    'real kernel scheduling, select() timing and signal delivery are not modelled: the schedules are the quantified input',
                    'payload bytes are non-zero (spif_str_t texts); object sizes below 2^31',
                    'the receive loop is modelled in its repaired form (src/str.c belongs to property C01)']
@@ -72,8 +87,15 @@ class C19(vlib.PropertyCheck):
               'of live objects, no two objects share one, and after deleting every object it equals the initial set; close leaves -1. '
               'Partial: kernel behaviour (scheduling, select timing, signals) is an oracle; FIFO is an assumption. Tied to the tree by '
               'running the extracted model and an ASan build (and a plain build) with interposed read/write/accept/close/dup/socket/'
-              'bind/listen/connect/select on the same histories, real AF_UNIX pairs included.'),
+              'bind/listen/connect/select on the same histories, real AF_UNIX pairs included, and with every stratum repeated on '
+              'descriptor numbers 0-2 and 1023-1025 (pick_low_fresh: the lowest-free choice from any base is a fresh pick); the '
+              'census compares the set of open descriptors exactly, 0-2 included.'),
         design_ref='DESIGN.md section 7, C19')
+
+    LOPS = ['open 0 1111', 'open 0 0111', 'open 0 1011', 'open 0 1110', 'open 1 1111', 'open 1 1101', 'open 1 0111',
+            'accept 0 0 1 1', 'accept 0 2 0 1', 'accept 0 0 1 0', 'close 0 0 1', 'close 1 2 0', 'close 2 0 1',
+            'dup 0 1', 'dup 0 0', 'dup 2 1', 'done 0 1 1', 'del 0 0 1', 'del 1 0 0',
+            'send 1 P5:1 eP', 'send 1 P5:1 eV', 'send 1 P5:1 w2,eF,i', 'recv 2 d3:1,i,z', 'nbio 0']
 
     # ------------------------------------------------------------------------------------
     def gen(self, tier, rng):
@@ -103,10 +125,7 @@ class C19(vlib.PropertyCheck):
             s = [rng.choice(al) for _ in range(rng.randrange(K + 1, 12))]
             cases.append('sim new 01 ; open 0 1111 ; send 0 P%d:%d %s ; send 0 P5:1 -' % (n, rng.randrange(255), j(s)))
         # (3) lifecycle: all sequences of length <= K (K-1 quick) over an operation alphabet, after a prefix
-        lops = ['open 0 1111', 'open 0 0111', 'open 0 1011', 'open 0 1110', 'open 1 1111', 'open 1 1101', 'open 1 0111',
-                'accept 0 0 1 1', 'accept 0 2 0 1', 'accept 0 0 1 0', 'close 0 0 1', 'close 1 2 0', 'close 2 0 1',
-                'dup 0 1', 'dup 0 0', 'dup 2 1', 'done 0 1 1', 'del 0 0 1', 'del 1 0 0',
-                'send 1 P5:1 eP', 'send 1 P5:1 eV', 'send 1 P5:1 w2,eF,i', 'recv 2 d3:1,i,z', 'nbio 0']
+        lops = self.LOPS
         lk = 3
         for s in seqs(lops, lk):
             cases.append('sim new 10 ; new 01 ; ' + ' ; '.join(s) if s else 'sim new 10 ; new 01')
@@ -114,6 +133,54 @@ class C19(vlib.PropertyCheck):
             cases.append(self.random_history(rng, rng.randrange(3, 14 if tier == 'quick' else 30)))
         # (4) real AF_UNIX pairs
         cases += self.real_cases(tier, rng, K)
+        # (5) descriptor numbers
+        cases += self.fd_number_cases(tier, rng, K)
+        return cases
+
+    def fd_number_cases(self, tier, rng, K):
+        cases = []
+        quick = tier == 'quick'
+        fds = lambda b: 'fds %d ; ' % b
+        # receive and send loops on every base: all schedules for the first 2 (3 thorough) calls
+        kk = 2 if quick else 3
+        for b in BASES:
+            pre = 'sim ' + fds(b) + 'new 01 ; open 0 1111 ; '
+            for s in seqs(RD_ALPHA, kk):
+                for term in (['a'], ['z'], ['x'], []):
+                    cases.append(pre + 'recv 0 ' + j(s + term))
+            for n in (1, 3000):
+                for s in seqs(ws_alpha(n), kk if n == 3000 else 2):
+                    cases.append(pre + 'send 0 P%d:%d %s' % (n, rng.randrange(255), j(s)))
+            # the accepted socket and a duplicate send and receive as well (their numbers are base+2, base+3 / a reused one)
+            pre2 = 'sim ' + fds(b) + 'new 10 ; new 01 ; open 0 1111 ; open 1 1111 ; accept 0 0 1 1 ; dup 2 1 ; close 0 0 1 ; dup 1 1 ; '
+            for i in (1, 2, 3, 4):
+                for s in seqs(['a', 'i', 'w2', 'eF', 'eP'], 2):
+                    cases.append(pre2 + 'send %d P5:%d %s ; recv %d d3:1,i,a' % (i, rng.randrange(255), j(s), i))
+        # lifecycle: every sequence of length <= 2 over the full alphabet on every base ...
+        lops = self.LOPS
+        for b in BASES:
+            for s in seqs(lops, 2 if quick else 3):
+                cases.append('sim ' + fds(b) + ' ; '.join(['new 10', 'new 01'] + s))
+        # ... and every sequence of length 3 (4 thorough) over the reuse-directed alphabet: quick on one base per sequence
+        # (rotating, 0 and 1024 twice as often), thorough length 3 on all six and length 4 rotating
+        ROT = [0, 1024, 1, 1023, 0, 1024, 2, 1025]
+        for idx, s in enumerate(seqs(REUSE_OPS, 3)):
+            if len(s) < 3:
+                continue
+            bs = [ROT[idx % len(ROT)]] if quick else BASES
+            for b in bs:
+                cases.append('sim ' + fds(b) + ' ; '.join(['new 10', 'new 01'] + s))
+        if not quick:
+            reuse4 = [o for o in REUSE_OPS if o not in ('open 0 0111', 'open 0 1110', 'open 1 1101', 'accept 0 1 0 1', 'dup 0 0', 'done 1 1 0')]
+            for idx, s in enumerate(itertools.product(reuse4, repeat=4)):
+                cases.append('sim ' + fds(ROT[idx % len(ROT)]) + ' ; '.join(['new 10', 'new 01'] + list(s)))
+        # random longer histories on a random base (3 = no prefix included)
+        for _ in range(600 if quick else 15000):
+            h = self.random_history(rng, rng.randrange(3, 14 if quick else 30))
+            cases.append('sim ' + fds(rng.choice(BASES + [3, 4, 1022, 1026, 2047, 2048])) + h[4:])
+        # real AF_UNIX pairs on every base: listener, client and accepted socket really hold 0/1/2 or 1023..1027
+        for b in BASES:
+            cases += [c.replace('real ', 'real ' + fds(b), 1) for c in self.real_cases(tier, rng, 1 if quick else 2, numbers=True)]
         return cases
 
     def random_history(self, rng, n):
@@ -150,7 +217,8 @@ class C19(vlib.PropertyCheck):
                 ops.append('recv %d %s' % (i, j([rng.choice(al) for _ in range(rng.randrange(0, 4))])))
         return 'sim ' + ' ; '.join(ops)
 
-    def real_cases(self, tier, rng, K):
+    def real_cases(self, tier, rng, K, numbers=False):
+        """numbers=True: the reduced set that fd_number_cases repeats on every descriptor base"""
         cases = []
 
         def xfer(n, seed, ws, shape, variant, teardown='', prefix=None):
@@ -172,14 +240,17 @@ class C19(vlib.PropertyCheck):
         tds = ['', 'del 0 0 1 ; del 1 0 1 ; del 2 0 1', 'del 2 0 1 ; del 1 0 1 ; del 0 0 1', 'del 1 1 1 ; del 0 0 0 ; del 2 2 1',
                'close 2 0 1 ; close 0 1 1 ; close 1 0 1', 'done 0 0 1 ; done 2 0 1 ; del 0 0 1',
                'dup 2 1 ; dup 0 1 ; dup 1 1 ; del 2 0 1 ; del 0 0 1']
-        sizes = [1, 62, 4096, 4097, 20480] if tier == 'quick' else SIZES
+        quick = tier == 'quick'
+        sizes = [1, 62, 4096, 4097, 20480] if quick else SIZES
+        if numbers:
+            sizes = [1, 4097] if quick else [1, 62, 4097, 20480]
         # all write schedules for the first K calls x a few read shapes
-        for n in ([4097] if tier == 'quick' else [1, 4097, 20480]):
+        for n in ([4097] if quick or numbers else [1, 4097, 20480]):
             for ws in seqs(ws_alpha(n, errors=False), K):
                 sh = rng.choice(few_sh)
                 cases.append(xfer(n, rng.randrange(255), ws, sh, rng.randrange(3), rng.choice(tds)))
         # all read shapes for the first K calls x a few write schedules
-        for n in ([8192] if tier == 'quick' else [1, 4096, 8192, 20480]):
+        for n in ([8192] if quick or numbers else [1, 4096, 8192, 20480]):
             for sh in seqs(SH_ALPHA, K):
                 for v in (0, 1):
                     cases.append(xfer(n, rng.randrange(255), rng.choice(few_ws), sh, v, rng.choice(tds)))
@@ -204,12 +275,12 @@ class C19(vlib.PropertyCheck):
             ['new 10', 'new 01', 'open 0 1111', 'nbio 0', 'close 0 2 0', 'open 0 1111', 'open 1 1111', 'accept 0 0 1 1'],
         ]
         for pf in prefixes:
-            for n in (62, 4097) if tier == 'quick' else sizes:
+            for n in ((4097,) if numbers else (62, 4097)) if quick else sizes:
                 for v in (1, 2):
                     for td in tds[:4]:
                         cases.append(xfer(n, rng.randrange(255), rng.choice(few_ws), rng.choice(few_sh), v, td, prefix=pf))
         # random shaped transfers
-        for _ in range(300 if tier == 'quick' else 5000):
+        for _ in range((30 if numbers else 300) if quick else (300 if numbers else 5000)):
             n = rng.choice(SIZES)
             ws = [rng.choice(ws_alpha(n, errors=False) + ['w1024', 'w4096']) for _ in range(rng.randrange(0, 9))]
             sh = [rng.choice(SH_ALPHA + ['t4095', 't2', 't1000']) for _ in range(rng.randrange(0, 9))]
@@ -225,8 +296,13 @@ class C19(vlib.PropertyCheck):
     def oracle(self, case, iout):
         m = re.search(r'leak=(-?\d+)', iout)
         if m and m.group(1) != '0':
-            return 'descriptor census after deleting every object differs from the one before the scenario (leak=%s)' % m.group(1)
-        m = re.search(r'!([1-9]\d*) ', iout)
+            m2 = re.search(r'leak=-?\d+(\[[\d,]*\])', iout)
+            return ('descriptor census after deleting every object differs from the one before the scenario (leak=%s%s)'
+                    % (m.group(1), (', still open: ' + m2.group(1)) if m2 else ''))
+        m = re.search(r'stolen=\d+(\[[\d,]*\])?', iout) or re.search(r'\^\d+ ', iout)
+        if m:
+            return 'a descriptor that was open before the scenario and is not the library\'s was closed (%s)' % m.group(0).strip()
+        m = re.search(r'!([1-9]\d*)[ ^]', iout)
         if m:
             return 'a live socket object refers to a descriptor that is not open'
         if '!real:' in iout:
@@ -249,8 +325,13 @@ class C19(vlib.PropertyCheck):
         exe, log = vlib.build_impl('c19-plain', os.path.join(vlib.VERIF, 'harness', self.harness), sanitize=False, ldflags=WRAP)
         if exe is None:
             return [('B', 'plain build', 'plain (no sanitizer) build of the harness failed: ' + log[-300:])]
-        mouts, _ = vlib.run_model(ctx['model_exe'], path, len(cases))
-        iouts, _ = vlib.run_cases(exe, path, len(cases), timeout_per_run=self.case_timeout)
+        # the model and the plain build run side by side (two processes, nothing shared but the case file)
+        from concurrent.futures import ThreadPoolExecutor
+        with ThreadPoolExecutor(max_workers=2) as pool:
+            fm = pool.submit(vlib.run_model, ctx['model_exe'], path, len(cases))
+            fi = pool.submit(vlib.run_cases, exe, path, len(cases), timeout_per_run=self.case_timeout)
+            mouts, _ = fm.result()
+            iouts, _ = fi.result()
         dis = vlib.compare(self, cases, mouts, iouts)
         ctx['cov']['plain_build_cases'] = len(cases)
         ctx['cov']['plain_build_disagreements'] = len(dis)
